@@ -413,7 +413,9 @@ MutSane(u) == \A x \in V("Balances", BalsDom) \cup V("SubAlloc", SubAllocs) :
 SetAt(seq, i, v) == [seq EXCEPT ![i] = v]
 Drop(seq) == SubSeq(seq, 1, Len(seq) - 1)
 Bump(x) == IF x >= MaxInt32 \/ x < 0 THEN 3 ELSE x + 1
-OtherApp(a) == IF a = "none" THEN "APP1" ELSE IF a = "APP1" THEN "APP2" ELSE "APP1"
+(* APP3 / APP4: two more registered apps whose identifiers have short coordinates, (01, 0203) and (0102, 03): the same *)
+(* bytes once the coordinates are written without padding                                                         *)
+OtherApp(a) == IF a = "none" THEN "APP1" ELSE IF a = "APP1" THEN "APP2" ELSE IF a = "APP3" THEN "APP4" ELSE "APP1"
 OtherData(d) == IF d = "D1" THEN "D2" ELSE "D1"
 StateVariants(s) ==
   LET al == s.alloc
@@ -474,7 +476,7 @@ PreImage(p) == <<p.parts, p.rep, NonceNorm(p.nonce), p.cd, p.app, p.ledger, p.vi
 ParamsValid(p) == /\ p.cd > 0 /\ NParts(p) >= 2 /\ NParts(p) <= Limit /\ p.app # "nil" /\ NonceOK(p.nonce)
                   /\ \A i \in 1..Len(p.parts) : p.parts[i] # "W0"      \* "W0": a participant without any address (empty map)
 IP(cd, parts, app, nonce, l, v) == [cd |-> cd, parts |-> parts, rep |-> 0, app |-> app, nonce |-> nonce, ledger |-> l, virt |-> v]
-IdBases == { IP(cd, ps, app, n, l, v) : cd \in {1, 60}, ps \in {<<"W1", "W2">>, <<"W1", "W2", "W3">>}, app \in {"none", "APP1"},
+IdBases == { IP(cd, ps, app, n, l, v) : cd \in {1, 60}, ps \in {<<"W1", "W2">>, <<"W1", "W2", "W3">>}, app \in {"none", "APP1", "APP3"},
                                         n \in {"0", "5", "2^256-1"}, l \in BOOLEAN, v \in BOOLEAN }
 NoncePlus(n) == CASE n = "0" -> "1" [] n = "5" -> "6" [] n = "2^256-1" -> "2^256-2" [] OTHER -> "5"
 NonceMinus(n) == CASE n = "5" -> "4" [] OTHER -> NoncePlus(n)
